@@ -9,6 +9,7 @@ import GdcVerif.Lemmas.J2kBandState
 import GdcVerif.Lemmas.J2kPacketHeader
 import GdcVerif.Lemmas.J2kGlueImage
 import GdcVerif.Lemmas.J2kGlueSample
+import GdcVerif.Lemmas.J2kGlueFrame
 import GdcVerif.Lemmas.J2kContainer
 /-!
   C04 — JPEG 2000 reversible path, single tile: exact reconstruction for every configuration.
@@ -587,6 +588,46 @@ theorem frame_layout (c : ICfg) (body : List Nat) :
     simp [JpegC.j2kStream, JpegC.j2kTail, JpegC.writeTLM, ICfg.params, JpegC.Outcome.map, JpegC.writeTileParts,
       JpegC.writeTilePart, JpegC.classicTilePart, JpegC.be16, JpegC.be32]
     decide
+
+/-- (G8) THE PARSER SIDE OF THE FRAMING: `unframe` — codestream/parser.go on a one-tile-part stream: SOC, marker
+    segments stepped over by their length words up to SOT, Lsot = 10, tile-part header up to SOD,
+    readTileDataWithLength(tileStart, Psot) — applied to the encoder's codestream returns exactly the tile-part body
+    (EOC stays unread), whenever the header fields fit their length words (≤ 16384 components, ≤ 32 levels,
+    body + 14 < 2^32).  Tied to the real parser by the correspondence line `j2k-unframe`. -/
+theorem parser_walk_returns_body (c : ICfg) (body : List Nat) (hok : FrameOk c body) :
+    ∃ stream, frame c body = some stream ∧ unframe stream = some body :=
+  unframe_frame c body hok
+
+/-- (G9) (G6) with the framing hypothesis DISCHARGED by (G8): Decode(Encode(container)) = container with the decoder
+    reading the tile-part body through the parser walk `unframe`.  Remaining named hypotheses: `ZeroBlockHyp`,
+    `SegmentLenHyp` (and the T1 configuration bridge inside the model); the coding parameters the decoder uses are the
+    encoder's (SIZ/COD/QCD field round trips: C16). -/
+theorem reversible_single_tile_roundtrip_framed (c : ICfg) (samp : Nat → Nat → Nat → Int)
+    (hw : 0 < c.cbw) (hh : 0 < c.cbh) (hP1 : 1 ≤ c.P) (hP2 : c.P ≤ 16) (hL : bndL c.L (2 ^ c.P) < 2 ^ 25)
+    (hC : c.C ≤ 16384) (hL32 : c.L ≤ 32)
+    (hr : ∀ k x y, inRange c.P c.signed (samp k x y))
+    (hz : ZeroBlockHyp) (hs : SegmentLenHyp)
+    (hbody : ∀ body, (encodeBody c fun k x y => frontSample c.P c.signed (samp k x y)) = some body → body.length + 14 < 4294967296) :
+    ∃ stream, encodeImage c samp = some stream ∧ ∃ out, decodeImage c unframe stream = some out ∧
+      ∀ k x y, k < c.C → x < c.W → y < c.H → out k x y = container c.P (samp k x y) := by
+  -- the framing hypothesis of (G6), for the bodies that occur
+  have hPnat : ((c.P : Nat) : Int).toNat = c.P := by simp
+  have hv : ∀ k x y, -(2 ^ (c.P - 1)) ≤ frontSample c.P c.signed (samp k x y) ∧
+      frontSample c.P c.signed (samp k x y) < 2 ^ (c.P - 1) := by
+    intro k x y
+    have := frontSample_bound (c.P : Int) c.signed (samp k x y) (by omega) (by omega) (hr k x y)
+    rw [hPnat] at this
+    exact this
+  obtain ⟨body, henc, v', hdec, hv'⟩ := image_core_roundtrip c (fun k x y => frontSample c.P c.signed (samp k x y)) [] hw hh hP1 hP2 hL hv hz hs
+  obtain ⟨stream, hfr, hun⟩ := unframe_frame c body ⟨hC, hL32, hbody body henc⟩
+  refine ⟨stream, by unfold encodeImage; rw [henc]; exact hfr, ?_⟩
+  rw [List.append_nil] at hdec
+  refine ⟨fun k x y => writeSample c.P c.signed (dcUnshift c.P c.signed (v' k x y)),
+    by unfold decodeImage; rw [hun]; simp [hdec], ?_⟩
+  intro k x y hk hx hy
+  simp only []
+  rw [hv' k x y hk hx hy, ← sampleRoundTrip_front]
+  exact sample_roundtrip (c.P : Int) c.signed (samp k x y) (by omega) (by omega) (hr k x y)
 
 /-- non-vacuity of (G1): the hypothesis is satisfiable — a resolution with two live bands (HL with a 2×1 grid, HH 1×1),
     one block's data ending in 0xFF -/
